@@ -84,7 +84,7 @@ Proof.
   intros E. injection E as <-. rewrite keys_okb_app, Hk. unfold keys_okb. cbn. rewrite andb_true_r. exact Hc.
 Qed.
 
-Lemma convert_context_ok y ib f c m : convert_context y ib f = Ok (c, m) -> ctx_ok c = true.
+Lemma convert_context_ok y ib f root c m : convert_context y ib f root = Ok (c, m) -> ctx_ok c = true.
 Proof.
   unfold convert_context. intros H.
   repeat match type of H with rbind ?X _ = _ => destruct X; cbn [rbind] in H; try discriminate end.
@@ -97,20 +97,20 @@ Proof.
   unfold add_modules. intros Hk HF.
   apply (fold_rbind_inv (fun x => keys_okb x = true)
            (fun b0 y => fold_left (fun acc c => rbind acc (fun b1 =>
-                          rbind (convert_module bd y c is_binary (ld_file d) defaults) (add_module b1)))
+                          rbind (convert_module bd y c is_binary (ld_file d) (ld_root d) defaults) (add_module b1)))
                           (contexts_of (ym_context y)) (Ok b0))) with (l := mods) (acc := Ok b); [|intros a E; injection E as <-; exact Hk|exact HF].
   intros a y a' Ha HF2.
   apply (fold_rbind_inv (fun x => keys_okb x = true)
-           (fun b1 c => rbind (convert_module bd y c is_binary (ld_file d) defaults) (add_module b1)))
+           (fun b1 c => rbind (convert_module bd y c is_binary (ld_file d) (ld_root d) defaults) (add_module b1)))
     with (l := contexts_of (ym_context y)) (acc := Ok a); [|intros a0 E; injection E as <-; exact Ha|exact HF2].
-  intros a0 c a1 Ha0 E. destruct (convert_module bd y c is_binary (ld_file d) defaults) as [m| | |]; cbn [rbind] in E; try discriminate.
+  intros a0 c a1 Ha0 E. destruct (convert_module bd y c is_binary (ld_file d) (ld_root d) defaults) as [m| | |]; cbn [rbind] in E; try discriminate.
   exact (add_module_keys _ _ _ Ha0 E).
 Qed.
 
 Theorem load_keys_ok t pf bd b : load t pf bd = Ok b -> keys_okb b = true.
 Proof.
   unfold load. intros HL.
-  destruct (load_files _ t [(pf, None)] 0 []) as [[docs fs]| | |]; cbn [rbind] in HL; try discriminate.
+  destruct (load_files _ t [(pf, (None, None))] 0 []) as [[docs fs]| | |]; cbn [rbind] in HL; try discriminate.
   match type of HL with rbind ?X _ = _ => destruct X as [[b0 cms]| | |] eqn:E1 end; cbn [rbind] in HL; try discriminate.
   assert (K0 : keys_okb b0 = true).
   { refine (fold_rbind_inv (fun p : bag * list module => keys_okb (fst p) = true) _ _ docs (Ok ([], [])) (b0, cms) _ E1);
@@ -122,9 +122,9 @@ Proof.
     refine (fold_rbind_inv (fun p : bag * list module => keys_okb (fst p) = true) _ _ _ (Ok (bb, cmsb)) (bb', cmsb') _ Hlb);
       [|intros a E; injection E as <-; exact Hb].
     intros [bc cmsc] y [bc' cmsc'] Hc Hy. cbn [fst] in *.
-    destruct (convert_context y (snd lb || yc_is_builder y) (ld_file d)) as [[c m]| | |] eqn:Ecc; cbn [rbind] in Hy; try discriminate.
+    destruct (convert_context y (snd lb || yc_is_builder y) (ld_file d) (ld_root d)) as [[c m]| | |] eqn:Ecc; cbn [rbind] in Hy; try discriminate.
     destruct (add_context bc c) as [bn| | |] eqn:Ea; cbn [rbind] in Hy; try discriminate.
-    injection Hy as <- _. exact (add_context_keys _ _ _ Hc (convert_context_ok _ _ _ _ _ Ecc) Ea). }
+    injection Hy as <- _. exact (add_context_keys _ _ _ Hc (convert_context_ok _ _ _ _ _ _ Ecc) Ea). }
   destruct (finalize b0) as [b1| | |] eqn:Ef; cbn [rbind] in HL; try discriminate.
   pose proof (finalize_keys _ _ K0 Ef) as K1.
   match type of HL with rbind ?X _ = _ => destruct X as [b2| | |] eqn:E2 end; cbn [rbind] in HL; try discriminate.
